@@ -485,13 +485,17 @@ def BuiltSet.matches (bs : BuiltSet) (dom : Str) (rxHits : List Nat) : Option Bo
 def BuiltSet.matchesSpec (bs : BuiltSet) (dom : Str) (rxHits : List Nat) : Bool :=
   hasPrefixSpec bs.keys (trieQuery dom) || acContains bs.ac (cHat :: dom ++ [cDollar]) || bs.rx.any rxHits.contains
 
+/-- the bits of `MatchDomainBitmap`, one per set index (`none` = a panic inside `HasPrefix`) -/
+def Built.matchBits (b : Built) (name : Str) (rxHits : List Nat) : Option (List Bool) :=
+  let dom := normName name
+  (List.range b.sets.size).mapM fun i =>
+    match b.sets[i]? with
+    | none => some false
+    | some bs => bs.matches dom rxHits
+
 /-- `MatchDomainBitmap`, as the list of set indices whose bit is 1. -/
 def Built.matchIndices (b : Built) (name : Str) (rxHits : List Nat) : Option (List Nat) :=
-  let dom := normName name
-  (List.range b.sets.size).filterMapM fun i =>
-    match b.sets[i]? with
-    | none => some none
-    | some bs => (bs.matches dom rxHits).map fun hit => if hit then some i else none
+  (b.matchBits name rxHits).map fun bits => (List.range b.sets.size).filter fun i => bits.getD i false
 
 def Built.matchIndicesSpec (b : Built) (name : Str) (rxHits : List Nat) : List Nat :=
   let dom := normName name
